@@ -34,7 +34,19 @@ type VState struct {
 	NoIO                           bool // no I/O device attached: reads give 0, nothing is logged
 	HasRetn, HasReti               bool // handlers registered
 
+	// instruction supply for mode-0 interrupt acceptance (see interrupt.go)
+	OpPC    uint16  // PC of the instruction being executed (HALT / block repeats park here)
+	IntMode bool    // statement semantics: opcode/operand bytes come from IntData, PC is not advanced
+	IntData []uint8 // bytes supplied by the interrupting device
+	IntPos  int     // number of supplied bytes consumed
+	OvMode  bool    // as-implemented semantics: IntData overlays memory at [OvStart, OvEnd]
+	OvStart uint16
+	OvEnd   uint16
+	OvHit   bool // a data access (not an instruction fetch) fell into the overlay range
+	InFetch bool
+
 	// outputs of one step that are not machine state
+	Open   bool  // the statement leaves this case open: nothing is compared
 	Care   uint8 // F bits the Z80 defines for the executed instruction
 	RAlt   bool  // DDCB/FDCB: R may have advanced by 2 or by 3
 	Unimpl bool  // the encoding is not implemented: consumed, nothing else changes
@@ -194,14 +206,45 @@ func vsAddrOff(a uint16, d uint8) uint16 { return a + uint16(int16(int8(d))) }
 
 // ---------------------------------------------------------------- bus
 
-func (s *VState) rd(a uint16) uint8 { s.G.Rd[a]++; return s.G.Mem[a] }
+func (s *VState) rd(a uint16) uint8 {
+	if s.OvMode && a >= s.OvStart && a <= s.OvEnd {
+		// the mode-0 overlay answers instead of memory (no bus access)
+		if !s.InFetch {
+			s.OvHit = true
+		}
+		return s.IntData[a-s.OvStart]
+	}
+	s.G.Rd[a]++
+	return s.G.Mem[a]
+}
 func (s *VState) wr(a uint16, v uint8) {
+	if s.OvMode && a >= s.OvStart && a <= s.OvEnd {
+		s.OvHit = true
+		return // writes into the overlay range are dropped
+	}
 	s.G.Wr[uint32(a)<<8|uint32(v)]++
 	s.G.Mem[a] = v
 }
 func (s *VState) rd16(a uint16) uint16 { l := s.rd(a); h := s.rd(a + 1); return uint16(h)<<8 | uint16(l) }
 func (s *VState) wr16(a uint16, v uint16) { s.wr(a, uint8(v)); s.wr(a+1, uint8(v>>8)) }
-func (s *VState) fetch() uint8          { v := s.rd(s.PC); s.PC++; return v }
+func (s *VState) fetch() uint8 {
+	if s.IntMode {
+		// supplied by the interrupting device: no memory access, PC not advanced
+		var v uint8
+		if s.IntPos < len(s.IntData) {
+			v = s.IntData[s.IntPos]
+		} else {
+			s.Open = true // fewer bytes supplied than the instruction needs
+		}
+		s.IntPos++
+		return v
+	}
+	s.InFetch = true
+	v := s.rd(s.PC)
+	s.InFetch = false
+	s.PC++
+	return v
+}
 func (s *VState) fetch16() uint16       { l := s.fetch(); h := s.fetch(); return uint16(h)<<8 | uint16(l) }
 func (s *VState) m1() uint8             { v := s.fetch(); s.R = vsIncR(s.R); return v }
 func (s *VState) push(v uint16)         { s.SP -= 2; s.wr16(s.SP, v) }
@@ -422,6 +465,7 @@ func (s *VState) Step() {
 	s.Care = 0xff
 	s.RAlt = false
 	s.Unimpl = false
+	s.OpPC = s.PC
 	op := s.m1()
 	switch op {
 	case 0xcb:
@@ -611,7 +655,7 @@ func (s *VState) execMain(op uint8, m vsIdx) {
 	case 1:
 		switch {
 		case y == 6 && z == 6: // HALT: PC stays on the opcode
-			s.PC--
+			s.PC = s.OpPC
 			s.HALT = true
 		case y == 6:
 			s.wr(s.ea(m), s.r8(z, vsHL))
@@ -790,7 +834,7 @@ func (s *VState) execED(o uint8) {
 			n := v + s.A
 			s.setF(s.F&(vsFS|vsFZ|vsFC)|vsB2f(bc != 0, vsFPV)|n&vsF3|vsB2f(n&2 != 0, vsF5), 0xff)
 			if rep && bc != 0 {
-				s.PC -= 2
+				s.PC = s.OpPC
 			}
 		case 1: // CPI CPD CPIR CPDR
 			v := s.rd(hl)
@@ -801,7 +845,7 @@ func (s *VState) execED(o uint8) {
 			n := r.R - vsB2f(r.F&vsFH != 0, 1)
 			s.setF(s.F&vsFC|r.F&(vsFS|vsFZ|vsFH)|vsFN|vsB2f(bc != 0, vsFPV)|n&vsF3|vsB2f(n&2 != 0, vsF5), 0xff)
 			if rep && bc != 0 && r.R != 0 {
-				s.PC -= 2
+				s.PC = s.OpPC
 			}
 		case 2: // INI IND INIR INDR: port C; documented flags Z, N (C unchanged)
 			v := s.pin(s.C)
@@ -810,7 +854,7 @@ func (s *VState) execED(o uint8) {
 			s.setHLx(vsHL, hl+dir)
 			s.setF(s.F&^(vsFZ)|vsFN|vsB2f(s.B == 0, vsFZ), vsFZ|vsFN|vsFC)
 			if rep && s.B != 0 {
-				s.PC -= 2
+				s.PC = s.OpPC
 			}
 		case 3: // OUTI OUTD OTIR OTDR
 			v := s.rd(hl)
@@ -819,7 +863,7 @@ func (s *VState) execED(o uint8) {
 			s.setHLx(vsHL, hl+dir)
 			s.setF(s.F&^(vsFZ)|vsFN|vsB2f(s.B == 0, vsFZ), vsFZ|vsFN|vsFC)
 			if rep && s.B != 0 {
-				s.PC -= 2
+				s.PC = s.OpPC
 			}
 		}
 	default:
